@@ -481,7 +481,7 @@ pub fn spaces_c03(tier: Tier) -> Vec<Space> {
             let (f1, f2) = (sh::FORKID_FLAGS[c[0] as usize], sh::FORKID_FLAGS[c[1] as usize]);
             let mutation = HIST_MUTATIONS[c[2] as usize];
             let idx = c[3] as usize;
-            history_case(acc, case, f1, f2, &[mutation], idx);
+            history_case("C03", acc, case, f1, f2, &[mutation], idx);
         }));
         // every ordered triple (thorough: quadruple) of mutations, each preceded by an observation
         let nm = HIST_MUTATIONS.len() as u64;
@@ -500,7 +500,7 @@ pub fn spaces_c03(tier: Tier) -> Vec<Space> {
             if ms.iter().any(|m| *m == "none") {
                 return;
             }
-            history_case(acc, case, f1, f2, &ms, c[3] as usize);
+            history_case("C03", acc, case, f1, f2, &ms, c[3] as usize);
         }));
     }
     // sign leg: signature over the specified preimage must verify under the reference verifier
@@ -618,7 +618,7 @@ fn lib_txout(o: &ROut) -> bsv::TxOut {
     bsv::TxOut::new(o.value, &Script::from_bytes(&o.script).unwrap())
 }
 
-fn history_case(acc: &mut Acc, case: &Case, f1: u32, f2: u32, mutations: &[&str], idx: usize) {
+fn history_case(prop: &str, acc: &mut Acc, case: &Case, f1: u32, f2: u32, mutations: &[&str], idx: usize) {
     acc.evaluations += 1;
     acc.transitions += 2 + 2 * mutations.len() as u64;
     acc.traces += 1;
@@ -729,16 +729,16 @@ fn history_case(acc: &mut Acc, case: &Case, f1: u32, f2: u32, mutations: &[&str]
         }
     }
     let last = mutations.last().copied().unwrap_or("none");
-    let want = sh::forkid_preimage(&model, idx, &sub, value, f2);
+    let want = sh::preimage(&model, idx, &sub, value, f2);
     match (lib, want) {
-        (Err(p), _) => acc.violate(format!("C03/history/kind=panic@{}", panic_site(&p)), case.idx, case.json(input), p),
+        (Err(p), _) => acc.violate(format!("{}/history/kind=panic@{}", prop, panic_site(&p)), case.idx, case.json(input), p),
         (Ok(Err(_)), Pre::SingleOutOfRange(_)) => acc.outcome(b"refused-single"),
-        (Ok(Err(e)), _) => acc.violate("C03/history/kind=spurious-error", case.idx, case.json(input), e),
+        (Ok(Err(e)), _) => acc.violate(format!("{}/history/kind=spurious-error", prop), case.idx, case.json(input), e),
         (Ok(Ok(got)), Pre::Bytes(w)) | (Ok(Ok(got)), Pre::SingleOutOfRange(w)) => {
             acc.outcome(&[0x77, (got == w) as u8]);
             if got != w {
-                let field = forkid_field(first_diff(&got, &w), sub.len());
-                acc.violate(format!("C03/history/after={}/field={}", last.split('(').next().unwrap_or(last), field), case.idx, case.json(input), format!("library={} specified={}", hx(&got), hx(&w)));
+                let field = if f2 & sh::FORKID != 0 { forkid_field(first_diff(&got, &w), sub.len()).to_string() } else { legacy_component(&got, &w).to_string() };
+                acc.violate(format!("{}/history/after={}/field={}", prop, last.split('(').next().unwrap_or(last), field), case.idx, case.json(input), format!("library={} specified={}", hx(&got), hx(&w)));
             }
         }
         (Ok(Ok(_)), Pre::NoSuchInput) => {}
@@ -842,6 +842,29 @@ fn skeleton_space(prop: &'static str, flags: [u32; 6], tier: Tier, other_scripts
 
 pub fn spaces_c10(tier: Tier) -> Vec<Space> {
     let mut v = common_spaces("C10", sh::LEGACY_FLAGS, tier, true);
+    // bounded histories on one object with the legacy SPECIFICATION as oracle (as under C03): construct, observe with
+    // legacy flag f1, mutate, [observe, mutate,] observe with legacy flag f2
+    {
+        let nm = HIST_MUTATIONS.len() as u64;
+        v.push(Space::new("construct-observe-mutate-observe", 6 * 6 * nm * 2, move |case, acc| {
+            let c = coords(case.idx, &[6, 6, nm, 2]);
+            history_case("C10", acc, case, sh::LEGACY_FLAGS[c[0] as usize], sh::LEGACY_FLAGS[c[1] as usize], &[HIST_MUTATIONS[c[2] as usize]], c[3] as usize);
+        }));
+        let depth: u32 = if tier.is_thorough() { 3 } else { 2 };
+        v.push(Space::new("construct-observe-mutate-sequences", 6 * 6 * nm.pow(depth) * 2, move |case, acc| {
+            let c = coords(case.idx, &[6, 6, nm.pow(depth), 2]);
+            let mut ms = vec![];
+            let mut r = c[2];
+            for _ in 0..depth {
+                ms.push(HIST_MUTATIONS[(r % nm) as usize]);
+                r /= nm;
+            }
+            if ms.iter().any(|m| *m == "none") {
+                return;
+            }
+            history_case("C10", acc, case, sh::LEGACY_FLAGS[c[0] as usize], sh::LEGACY_FLAGS[c[1] as usize], &ms, c[3] as usize);
+        }));
+    }
     v.push(skeleton_space("C10", sh::LEGACY_FLAGS, tier, true));
     let subs = std::sync::Arc::new(codesep_subscripts());
     let n = subs.len() as u64;
